@@ -12,7 +12,7 @@ RULE = ("Real processes. Every cell of tool {assembler.py, file_util.py with a c
         "source} x switch {--to_bin, --to_cas, --to_dsk} x {--append, no append} x pre-existing target {absent, empty, "
         "cassette image of 1-3 files, disk image, raw binary, arbitrary bytes (random / truncated tape header / "
         "disk-sized garbage / all zeros / all $FF / one byte repeated / zeros then one byte: 9 shapes, each in every cell), "
-        "cassette >= 161,280 bytes} is enumerated (126 cells, 2 content variants each, 9 for arbitrary bytes); "
+        "cassette >= 161,280 bytes; one disk variant stores a complete cassette image as a file} is enumerated (126 cells, 2 content variants each, 9 for arbitrary bytes); "
         "Hypothesis draws further contents for the cells and 2-4 invocation sequences on one path. Decision model: "
         "modification is permitted iff append and kind(existing) == kind being written, kind() decided by the "
         "independent readers (valid Disk BASIC image -> disk; tape grammar with >= 1 file -> cassette; zero-length -> "
@@ -46,6 +46,8 @@ def enumerated(tier, seed):
                         if pre == "bigcas" and variant:
                             continue
                         k = 63 + variant if pre == "arbitrary" else variant * 977 + 5      # every arbitrary-content shape
+                        if pre == "dsk" and variant:
+                            k = 981      # k % 4 == 1: a disk holding a tape image as a file
                         yield dict(steps=[dict(tool=tool, switch=switch, append=append)], pre=pre, k=k)
     # program names that cannot be stored as bytes: the save fails, the existing image must survive
     for name in ("N\u20ac", "\u00c01", "\u540d\u524d"):
@@ -89,9 +91,12 @@ def make_cas(files, lead=128, gapflag=0):
     return casref.write(spec)
 
 
-def make_dsk(files, rnd):
+def make_dsk(files, rnd, avoid_granule_zero=False):
     free = list(range(68))
     rnd.shuffle(free)
+    if avoid_granule_zero:
+        free.remove(0)
+        free.append(0)
     chains = []
     spec = []
     for f in files:
@@ -115,7 +120,12 @@ def make_pre(pre, k):
         return make_cas(files, lead=rnd.choice([128, 128, 16])), "cas", files
     if pre == "dsk":
         files = _small_files(rnd, 1 + k % 2, "dsk")
-        return make_dsk(files, rnd), "dsk", files
+        if k % 4 == 1:
+            # a disk that holds a cassette image as one of its files - never in granule 0: an image that *begins* with a
+            # tape stream and is also a valid disk has two honest readings and is not generated (DESIGN 9.5)
+            inner = make_cas(_small_files(rnd, 1, "cas"))
+            files[0] = dict(files[0], name="TAPE", ftype=1, dtype=0xFF, load=0, exec=0, data=inner)
+        return make_dsk(files, rnd, avoid_granule_zero=True), "dsk", files
     if pre == "rawbin":
         n = rnd.choice([1, 7, 300, 5000])
         return bytes([0x86, 0x41]) + bytes(rnd.randrange(256) for _ in range(n)), "other", []
